@@ -446,9 +446,13 @@ def run(spec):
             ra_before = copy.deepcopy(ra)
 
             kupd = ['set', 'merge'][len(spec['batch']) % 2]
-            kvariant = (len(spec['batch']) // 2) % 3
-            kpair = [({'k': 1, 'x': 5}, {'k': 2}), ({'k': 1}, {'k': 2, 'x': 5}), ({'x': 1}, {'y': 2})][kvariant]
-            kexp = kpair[1] if kupd == 'set' else dict({'a': 1}, **dict(kpair[0], **kpair[1]))
+            kvariant = (len(spec['batch']) // 2) % 4
+            kpair = [({'k': 1, 'x': 5}, {'k': 2}), ({'k': 1}, {'k': 2, 'x': 5}), ({'x': 1}, {'y': 2}),
+                     # three ports, the key that fewer updates share comes first (merge updater only)
+                     ({'x': 5, 'k': 1}, {'k': 2}, {'x': 7, 'k': 3})][kvariant]
+            if kvariant == 3:
+                kupd = 'merge'
+            kexp = kpair[-1] if kupd == 'set' else dict({'a': 1}, **{k: v for d in kpair for k, v in d.items()})
 
             class Batch(Process):
                 def ports_schema(self):
@@ -467,6 +471,8 @@ def run(spec):
                     # through two ports: two updates, applied one after the other
                     sch['ka'] = {'_default': {'a': 1}, '_updater': kupd}
                     sch['kb'] = {'_default': {'a': 1}, '_updater': kupd}
+                    if len(kpair) == 3:
+                        sch['kc'] = {'_default': {'a': 1}, '_updater': kupd}
                     return sch
 
                 def next_update(self, timestep, states):
@@ -474,6 +480,8 @@ def run(spec):
                         return {}
                     out = dict(update, ra=ra, rb=rb, rd={}, ma={'y': 20}, mb={'_updater': 'set', '_value': {'x': 10}},
                                ka=copy.deepcopy(kpair[0]), kb=copy.deepcopy(kpair[1]))
+                    if len(kpair) == 3:
+                        out['kc'] = copy.deepcopy(kpair[2])
                     if third:
                         out['rc'] = {'_updater': 'set', '_value': 100}
                     return out
@@ -482,6 +490,8 @@ def run(spec):
             topo['ra'] = topo['rb'] = ('rootv',)
             topo['rd'] = ('rootd',)
             topo['ka'] = topo['kb'] = ('rootk',)
+            if len(kpair) == 3:
+                topo['kc'] = ('rootk',)
             mfirst = len(spec['batch']) % 4 < 2
             for port in (('ma', 'mb') if mfirst else ('mb', 'ma')):
                 topo[port] = ('rootm',)
@@ -510,8 +520,8 @@ def run(spec):
             # only as far as the merged form tells - with the set updater a key that only the second update carries,
             # or disjoint keys, end up in one update
             V.check('engine_value', after['rootk'] == kexp,
-                    lambda: ('dictionary-valued variable {"a": 1} (updater %s) with the updates %r and %r through two ports in one batch: '
-                             'holds %r, applied one after the other it would hold %r' % (kupd, kpair[0], kpair[1], after['rootk'], kexp)),
+                    lambda: ('dictionary-valued variable {"a": 1} (updater %s) with the updates %r through %d ports in one batch: '
+                             'holds %r, applied one after the other it would hold %r' % (kupd, kpair, len(kpair), after['rootk'], kexp)),
                     mechanism='dict-updates-merged-key-by-key' if (kupd == 'set' and kvariant in (1, 2)) else None)
             after = {k: v for k, v in after.items() if k not in ('rootv', 'rootd', 'rootm', 'rootk')}
         for p, var in var_of.items():
